@@ -1,6 +1,27 @@
 """Per-property metadata used by the runner (levels, explanations)."""
 
 PROPS = {
+    "C16": {
+        "level": "other",
+        "explanation": "totality and bounded allocation of the decoders decided by panic/allocation reachability over "
+                       "the resolved call graph with generic discharge arguments; encoder/decoder layout, tag and "
+                       "KeyBytes pairing extracted from the MIR of both sides and compared",
+        "not_decided": "the round-trip value law itself; lossy `len() as u32` casts above 4 GiB are listed as an assumption",
+    },
+    "C10": {
+        "level": "other",
+        "explanation": "verify-before-accept as a graph cut in the segment reader (checksum equality edge dominates "
+                       "every accepting return, over the same buffer), short payload => error-only paths, error "
+                       "propagation to the open root, decode-before-apply, panic sources on the replay path",
+        "not_decided": "'state = longest undamaged prefix' as a value; hash collisions",
+    },
+    "C14": {
+        "level": "other",
+        "explanation": "error discipline over every effectful Result-returning call site (def-use: a result that is "
+                       "only dropped is a discard), unwrap/expect sites classified by error type, append-before-"
+                       "apply as a graph cut, and the error-path typestate of the log writer field",
+        "not_decided": "post-fault state as values",
+    },
     "C01": {
         "level": "other",
         "explanation": "refinement wiring decided on all paths: every Ok exit of a mutating entry point is either "
